@@ -1,5 +1,6 @@
 import AuthbossModel.DriverCS
 import AuthbossModel.Machine.Wire
+import AuthbossModel.DriverLock
 
 open AuthbossModel
 
@@ -7,6 +8,7 @@ open AuthbossModel
 def dispatch (d : M.DState) (line : String) : M.DState × String :=
   match (line.trimAscii.toString.splitOn " ").filter (· ≠ "") with
   | "csrw" :: args => (d, CS.handle args)
+  | "lock" :: args => (d, Lock.handle args)
   | "mcfg" :: args => M.handleLine d ("mcfg" :: args)
   | "m" :: args => M.handleLine d ("m" :: args)
   | _ => (d, "bad-op")
